@@ -92,7 +92,7 @@ def compactTriggers (c : Cfg) (s : Engine) : List String :=
   (if dropsNodeTombstone s then ["C05-compact-drops-node-tombstone"] else []) ++
   (if dropsEdgeTombstone s then ["C05-compact-drops-edge-tombstone"] else []) ++
   (if dropsPropRemoval s then ["C05-compact-drops-property-removal"] else []) ++
-  (if sinksKeyTwice s then ["C05-whole-map-read-returns-oldest-sunk-value"] else []) ++
+  (if !Generated.extendKeepsNewest && sinksKeyTwice s then ["C05-whole-map-read-returns-oldest-sunk-value"] else []) ++
   (if !c.compactOwnLast && ownTombstone s then ["C05-compact-drops-recreated-edge"] else []) ++
   (if ownNodeTombstone s then ["C05-edge-and-endpoint-delete-in-one-tx"] else []) ++
   (if !c.csrGuard && edgeFree c s then ["C05-edge-free-segment-panics"] else [])
